@@ -16,3 +16,4 @@ pub mod core;
 pub mod worker;
 pub mod sched;
 pub mod sysw;
+pub mod env;
